@@ -135,6 +135,8 @@ def run_schedule(args):
                 await r.close()
             elif k == "pump":
                 await pump(st[1])
+            elif k == "register":
+                await r.register()
             elif k == "quiesce":          # fault-free service until every call has ended (a reset is only modelled from a quiet stack)
                 for _ in range(400):
                     if r.h2n:
@@ -211,6 +213,21 @@ def gen_schedules(rng: random.Random, quick: bool, flavour: str):
                         steps.append(kind)
                         steps += [("pump", 6), ("call", "nop"), ("pump", 4)]
                         out.append((ver, 1, reg, steps))
+        # a failure while nobody is registered is only logged; once the application has registered, the next failure must be reported
+        for ver in (4, 8, 14) if quick else versions:
+            for first in (("error", 2), ("error", 0x51), ("rstack", 2), ("silent",)):
+                for second in (("error", 2), ("error", 0x80), ("rstack", 6), ("lose", "exc"), ("lose", "eof")):
+                    for k in (0, 2, 4):
+                        steps = [("bringup",), ("call", "getNodeId")]
+                        for i in range(k):
+                            steps.append(("toncp", "deliver") if i % 2 == 0 else ("tohost", "deliver"))
+                        if first == ("silent",):
+                            steps += [("noreply", 3), ("call", "nop"), ("toncp", "drop"), ("timer",), ("toncp", "drop"), ("timer",), ("toncp", "drop"),
+                                      ("timer",), ("toncp", "drop"), ("timer",), ("toncp", "drop"), ("timer",)]
+                        else:
+                            steps += [first, ("pump", 6)]
+                        steps += [("call", "nop"), ("pump", 2), ("register",), second, ("pump", 6), ("call", "nop"), ("pump", 4)]
+                        out.append((ver, 1, False, steps))
     return out
 
 
